@@ -232,6 +232,17 @@ func TestVerifTLS(t *testing.T) {
 				idx--
 				continue
 			}
+			if r.intn(5) == 0 {
+				// what OpenSSL-style clients do and crypto/tls clients never do: the renegotiation signalling value 0x00ff among the
+				// offered cipher suites (here in place of the last one); the hello stays well-formed and unmutated
+				sidLen := int(rec[5+38])
+				csOff := 5 + 39 + sidLen
+				csLen := int(binary.BigEndian.Uint16(rec[csOff:]))
+				if csLen >= 2 && csOff+2+csLen <= len(rec) {
+					rec[csOff+csLen], rec[csOff+csLen+1] = 0x00, 0xff
+					stats["hellos with SCSV 0x00ff"]++
+				}
+			}
 			base = append(base, rec)
 		} else {
 			rec = append([]byte(nil), base[r.intn(len(base))]...)
